@@ -227,13 +227,14 @@ theorem keywords_win {W : Type} (cfg : Config W) (call : CallFn W) (locals : Opt
 
 open HostImpl in
 /-- **operator table** (rows with exact results): `+` adds numbers, concatenates when either side is a string
-(stringifying the other with `valueString`) and offsets a datetime by (integral) milliseconds from either side; `-`
+(stringifying the other with `valueString?`; a value that cannot be stringified — a self-containing container, known
+finding F18, null after fix F25 — gives null) and offsets a datetime by (integral) milliseconds from either side; `-`
 subtracts numbers and gives the millisecond difference of two datetimes; `*` multiplies numbers. -/
 theorem binop_table (w : World) :
     (∀ x y, binop .add (.num x) (.num y) w = .num (x + y)) ∧
     (∀ x y, binop .add (.str x) (.str y) w = .str (x ++ y)) ∧
-    (∀ x b, binop .add (.str x) b w = .str (x ++ valueString w b)) ∧
-    (∀ a y, binop .add a (.str y) w = .str (valueString w a ++ y)) ∧
+    (∀ x b, binop .add (.str x) b w = match valueString? w b with | some s => .str (x ++ s) | none => .null) ∧
+    (∀ a y, binop .add a (.str y) w = match valueString? w a with | some s => .str (s ++ y) | none => .null) ∧
     (∀ x y, y.den = 1 → binop .add (.dt x) (.num y) w = .dt (x + y.num)) ∧
     (∀ x y, x.den = 1 → binop .add (.num x) (.dt y) w = .dt (y + x.num)) ∧
     (∀ x y, binop .sub (.num x) (.num y) w = .num (x - y)) ∧
@@ -244,6 +245,16 @@ theorem binop_table (w : World) :
   · intro a y; cases a <;> rfl
   · intro x y h; simp [binop, h]
   · intro x y h; simp [binop, h]
+
+open HostImpl in
+/-- every value that is not a container stringifies (so concatenation with it is never null), with the documented text
+for null and booleans, the value itself for a string -/
+theorem stringify_scalars (w : World) :
+    valueString? w .null = some "null" ∧ valueString? w (.bool true) = some "true" ∧
+    valueString? w (.bool false) = some "false" ∧ (∀ s, valueString? w (.str s) = some s) ∧
+    (∀ q, valueString? w (.num q) = some (ratText q)) ∧ (∀ f, valueString? w (.fn f) = some "<function>") ∧
+    (∀ r, valueString? w (.regex r) = some "<regex>") :=
+  ⟨rfl, rfl, rfl, fun _ => rfl, fun _ => rfl, fun _ => rfl, fun _ => rfl⟩
 
 open HostImpl in
 /-- **operator table, `/ % **` rows** (`_partial`: exact rational results; the real code rounds them to IEEE doubles):
@@ -277,28 +288,51 @@ theorem ratPowNat_eq (x : Rat) (n : Nat) : HostImpl.ratPowNat x n = x ^ n := by
   | succ k ih => rw [HostImpl.ratPowNat, ih, Rat.pow_succ, Rat.mul_comm]
 
 open HostImpl in
-/-- **comparisons are sign tests** of the single value order `compare` (total preorder: property C11) -/
+/-- **comparisons are sign tests** of the single value order `compare?` (total preorder: property C11): when the
+comparison of the two values terminates with `c`, the six operators are the six sign tests of `c`; when it does not (a pair
+of self-containing containers: known finding F18, null after fix F25) all six are null. -/
 theorem relops_are_sign_tests (w : World) (a b : Value) :
-    binop .eq a b w = .bool (compare w a b == 0) ∧ binop .ne a b w = .bool (compare w a b != 0) ∧
-    binop .le a b w = .bool (decide (compare w a b ≤ 0)) ∧ binop .lt a b w = .bool (decide (compare w a b < 0)) ∧
-    binop .ge a b w = .bool (decide (compare w a b ≥ 0)) ∧ binop .gt a b w = .bool (decide (compare w a b > 0)) :=
-  ⟨rfl, rfl, rfl, rfl, rfl, rfl⟩
+    (∀ c, compare? w a b = some c →
+      binop .eq a b w = .bool (c == 0) ∧ binop .ne a b w = .bool (c != 0) ∧
+      binop .le a b w = .bool (decide (c ≤ 0)) ∧ binop .lt a b w = .bool (decide (c < 0)) ∧
+      binop .ge a b w = .bool (decide (c ≥ 0)) ∧ binop .gt a b w = .bool (decide (c > 0))) ∧
+    (compare? w a b = none →
+      ∀ op, isCompare op = true → binop op a b w = .null) := by
+  constructor
+  · intro c h; simp [binop, h]
+  · intro h op hop
+    cases op <;> simp [isCompare] at hop <;> simp [binop, h]
 
 open HostImpl in
-/-- hence the six comparisons are mutually consistent on every pair of values of any types -/
-theorem relops_consistent (w : World) (a b : Value) :
+/-- hence the six comparisons are mutually consistent on every pair of values (of any types) whose comparison terminates -/
+theorem relops_consistent (w : World) (a b : Value) (c : Int) (h : compare? w a b = some c) :
     ∃ eq lt : Bool, (eq && lt) = false ∧
       binop .eq a b w = .bool eq ∧ binop .ne a b w = .bool (!eq) ∧ binop .lt a b w = .bool lt ∧
       binop .le a b w = .bool (lt || eq) ∧ binop .ge a b w = .bool (!lt) ∧ binop .gt a b w = .bool (!lt && !eq) := by
-  refine ⟨compare w a b == 0, decide (compare w a b < 0), ?_, rfl, ?_, rfl, ?_, ?_, ?_⟩
-  · by_cases h : compare w a b = 0 <;> simp [h]
-  · simp [binop, bne]
-  · simp only [binop]; congr 1; generalize compare w a b = c
-    rw [Bool.eq_iff_iff]; simp; omega
-  · simp only [binop]; congr 1; generalize compare w a b = c
-    rw [Bool.eq_iff_iff]; simp
-  · simp only [binop]; congr 1; generalize compare w a b = c
-    rw [Bool.eq_iff_iff]; simp; omega
+  obtain ⟨h1, h2, h3, h4, h5, h6⟩ := (relops_are_sign_tests w a b).1 c h
+  refine ⟨c == 0, decide (c < 0), ?_, h1, ?_, h4, ?_, ?_, ?_⟩
+  · by_cases hc : c = 0 <;> simp [hc]
+  · rw [h2]; simp [bne]
+  · rw [h3]; congr 1; rw [Bool.eq_iff_iff]; simp; omega
+  · rw [h5]; congr 1; rw [Bool.eq_iff_iff]; simp
+  · rw [h6]; congr 1; rw [Bool.eq_iff_iff]; simp; omega
+
+open HostImpl in
+/-- values of different types (neither null) compare by type name, null is below everything else, and the comparison of
+two scalars always terminates — so the sign-test reading applies to every pair of non-container values -/
+theorem compare_scalars (w : World) :
+    (∀ b, b ≠ .null → compare? w .null b = some (-1)) ∧ (∀ a, a ≠ .null → compare? w a .null = some 1) ∧
+    compare? w .null .null = some 0 ∧
+    (∀ x y : Rat, compare? w (.num x) (.num y) = some (if x < y then -1 else if x = y then 0 else 1)) ∧
+    (∀ x y : String, compare? w (.str x) (.str y) = some (cmpOrd x y)) ∧
+    (∀ (x : Bool) (y : Rat), compare? w (.bool x) (.num y) = some (cmpOrd "boolean" "number")) := by
+  refine ⟨?_, ?_, ?_, ?_, ?_, ?_⟩
+  · intro b hb; cases b <;> first | exact absurd rfl hb | simp [compare?, valueCompare]
+  · intro a ha; cases a <;> first | exact absurd rfl ha | simp [compare?, valueCompare]
+  · simp [compare?, valueCompare]
+  · intro x y; simp [compare?, valueCompare]
+  · intro x y; simp [compare?, valueCompare]
+  · intro x y; simp [compare?, valueCompare, typeName]
 
 /-- every value has one of the nine type names -/
 theorem typeName_mem (v : Value) : HostImpl.typeName v ∈ typeNames := by
@@ -488,7 +522,9 @@ example : exGlobals.contains (.user "abs") = false ∧ ("abs", "mathAbs") ∈ do
 example : HostImpl.binop .add (.str "n=") (.num (5/2)) {} = .str "n=2.5" := by decide +kernel
 example : HostImpl.binop .add (.bool true) (.num 1) {} = .null := by decide
 example : HostImpl.binop .lt (.arr 0) (.num 0) {} = .bool true := by
-  simp [HostImpl.binop, HostImpl.compare, HostImpl.valueCompare, HostImpl.cmpOrd, HostImpl.typeName]
+  simp [HostImpl.binop, HostImpl.compare?, HostImpl.valueCompare, HostImpl.cmpOrd, HostImpl.typeName]
+example : HostImpl.compare? {} .null (.num 2) = some (-1) := by
+  simp [HostImpl.compare?, HostImpl.valueCompare]
 example : supported .sub "datetime" "number" = false ∧ supported .add "datetime" "number" = true := by decide
 
 end Examples
